@@ -111,6 +111,7 @@ type c16Field struct {
 // per case-insensitive name the same multiset of values, pinned spellings respected,
 // and the same order whenever order is defined (single key, no merge by a respelling).
 func c16Apply(e *env) {
+	nCase := 0
 	e.eachCase(func(raw json.RawMessage) {
 		var c struct {
 			Rules [][]string `json:"rules"`
@@ -129,6 +130,7 @@ func c16Apply(e *env) {
 		var rs []string
 		res := map[string]any{"ok": true}
 		fail := func(why string) { res["ok"] = false; res["why"] = why }
+		var list header.Headers
 		for _, r := range c.Rules {
 			s := join(r)
 			rs = append(rs, s)
@@ -137,7 +139,18 @@ func c16Apply(e *env) {
 				fail("rule rejected: " + s)
 				break
 			}
-			h.Apply(hh)
+			list = append(list, h)
+		}
+		if res["ok"] == true {
+			// the list is applied the way the proxy applies it: as a request or a response modifier, alternately
+			nCase++
+			if nCase%2 == 0 {
+				list.ModifyRequest(&http.Request{Header: hh})
+				res["via"] = "ModifyRequest"
+			} else {
+				list.ModifyResponse(&http.Response{Header: hh})
+				res["via"] = "ModifyResponse"
+			}
 		}
 		res["rules"] = rs
 		if res["ok"] == true {
